@@ -121,7 +121,7 @@ func c10AddrID(addr string) int {
 // ---- case -----------------------------------------------------------------------------------
 
 type c10Case struct {
-	spawn    string // default | wrap | inline | pool1 | pool2
+	spawn    string // default | wrap | inline | pool1 | pool2 | wrapx<k> | inlinex<k> (the spawner ends the caller's context inside its k-th Go call, i.e. DURING the spawn loop)
 	cls      string // custom | http | nil   (IsClientError: harness function / httpgrpc errors with explicit isHTTPStatus4xx default)
 	api      string // opt | dobatch
 	icount   int
@@ -318,7 +318,23 @@ func c10Run(c *c10Case) (string, string) {
 		}
 	}
 	started := make(chan int, 64)
-	inline := c.spawn == "inline"
+	inline := strings.HasPrefix(c.spawn, "inline")
+	// wrapx<k> / inlinex<k>: the caller's context ends inside the k-th call of the spawner (between two hand-overs)
+	spawnBase, spawnCancelK := c.spawn, 0
+	if strings.HasPrefix(c.spawn, "wrapx") || strings.HasPrefix(c.spawn, "inlinex") {
+		i := strings.IndexByte(c.spawn, 'x')
+		spawnBase = c.spawn[:i]
+		spawnCancelK, _ = strconv.Atoi(c.spawn[i+1:])
+	}
+	var goCalls atomic.Int64
+	var spawnCancelled atomic.Bool
+	cancelInGo := func() {
+		if spawnCancelK > 0 && goCalls.Add(1) == int64(spawnCancelK) {
+			tr.add("x")
+			cancel()
+			spawnCancelled.Store(true)
+		}
+	}
 	var lastInline atomic.Int64
 	lastInline.Store(-1)
 
@@ -352,9 +368,9 @@ func c10Run(c *c10Case) (string, string) {
 	var finished atomic.Int64
 	var goFn func(func())
 	var poolStop chan struct{}
-	switch c.spawn {
+	switch spawnBase {
 	case "wrap":
-		goFn = func(f func()) { go func() { f(); finished.Add(1) }() }
+		goFn = func(f func()) { go func() { f(); finished.Add(1) }(); cancelInGo() }
 	case "inline":
 		goFn = func(f func()) {
 			lastInline.Store(-1)
@@ -363,6 +379,7 @@ func c10Run(c *c10Case) (string, string) {
 				tr.add("f" + strconv.Itoa(int(a)))
 			}
 			finished.Add(1)
+			cancelInGo()
 		}
 	case "pool1", "pool2":
 		w := 1
@@ -493,6 +510,11 @@ func c10Run(c *c10Case) (string, string) {
 		pool := strings.HasPrefix(c.spawn, "pool")
 		if !pool {
 			waitStarted(func() bool { return len(startedSet) >= len(addrs) })
+			if spawnCancelled.Load() {
+				// the context ended during the spawn loop: the return is due before anything is released
+				cancelled = true
+				checkReturn()
+			}
 		} else {
 			// the workers pick up the first tasks; only then may the plan (which can start with a cancellation) begin
 			w := 1
@@ -586,6 +608,9 @@ func c10Run(c *c10Case) (string, string) {
 	for _, a := range addrs {
 		released[a] = true
 	}
+	if spawnCancelled.Load() {
+		cancelled = true
+	}
 	checkReturn()
 	if !hasReturned {
 		tr.add("x")
@@ -610,6 +635,9 @@ func c10Run(c *c10Case) (string, string) {
 		}
 		runtime.Gosched()
 		time.Sleep(20 * time.Microsecond)
+	}
+	if !time.Now().Before(deadline) && len(c.keys) > 0 {
+		c10Hangs.Add(1) // cleanup never came: counts as a hang (keeps broken trees fast)
 	}
 	// unblock anything still blocked (only reachable when the code under test misbehaved)
 	for _, a := range addrs {
@@ -770,6 +798,23 @@ func c10RandMode(r *rng, c *c10Case) {
 		c.api = "dobatch"
 	}
 	c10BoundDefault(c)
+}
+
+// c10SpawnCancel turns every 12th random case that uses the wrapping / inline spawner and calls >= 2 replicas
+// into a "context ends inside the k-th Go call" case (draws nothing from the generator's rng).
+func c10SpawnCancel(c *c10Case, i int) {
+	n := len(c.addrs())
+	if i%12 != 0 || n < 2 || c.prefixEarly() || (c.spawn != "wrap" && c.spawn != "inline") {
+		return
+	}
+	var plan [][]int
+	for _, b := range c.plan {
+		if !(len(b) == 1 && b[0] < 0) {
+			plan = append(plan, b)
+		}
+	}
+	c.plan = plan
+	c.spawn += "x" + strconv.Itoa(1+(i/12)%(n-1))
 }
 
 func c10RealCase(r *rng, now int64) *c10Case {
@@ -993,6 +1038,40 @@ func runC10(e *env) {
 		}
 	}
 
+	// (1b) the caller's context ends DURING the spawn loop: a spawner that cancels it inside its k-th Go call
+	// (k = 1 .. n-1), goroutine flavour (wrapx<k>) and inline flavour (inlinex<k>, everything runs on the
+	// caller's goroutine: a cleanup waiter that blocks makes the call itself hang). All-ok, plus 8 random
+	// outcome assignments per (shape, k, flavour); random completion order for the goroutine flavour.
+	spRng := newRng(e.seed, 8)
+	for _, sh := range shapes {
+		tmp := c10FakeCase(sh.sets, 6, 3)
+		as := tmp.addrs()
+		if len(as) < 2 {
+			continue
+		}
+		for k := 1; k < len(as); k++ {
+			for _, fl := range []string{"wrapx", "inlinex"} {
+				for rep := 0; rep < 9; rep++ {
+					c := c10FakeCase(sh.sets, 6, 3)
+					for _, a := range as {
+						if rep == 0 {
+							c.outcomes[a] = 'o'
+						} else {
+							c.outcomes[a] = pick(spRng, []byte{'o', 'o', 'c', 's'})
+						}
+					}
+					perms := c10Perms(as)
+					c.plan = c10Singletons(perms[spRng.intn(len(perms))], -1)
+					c.spawn = fl + strconv.Itoa(k)
+					if spRng.chance(1, 4) {
+						c.cls = "http"
+					}
+					add(c)
+				}
+			}
+		}
+	}
+
 	// (2b) exhaustive over {ok, server error wrapping context.Canceled, client error wrapping
 	// context.DeadlineExceeded} x completion orders, batch context NOT cancelled: an interrupted replica
 	// call is a failure, never an acknowledgement
@@ -1080,6 +1159,7 @@ func runC10(e *env) {
 			if rr.chance(1, 25) {
 				c.cancelAt = 0
 			}
+			c10SpawnCancel(c, i)
 			add(c)
 		}
 	}
@@ -1092,6 +1172,7 @@ func runC10(e *env) {
 		if rf.chance(1, 30) {
 			c.cancelAt = rf.intn(len(c.sets) + 1)
 		}
+		c10SpawnCancel(c, i)
 		add(c)
 	}
 
